@@ -24,7 +24,10 @@ func (c *PointerCodec) New(r *ReadBuf) unsafe.Pointer {
 }
 
 func (c *PointerCodec) Omit(p unsafe.Pointer) bool {
-	return *(*unsafe.Pointer)(p) == nil
+	pp := *(*unsafe.Pointer)(p)
+	// A pointer to something that is itself null (a nil pointer, an invalid
+	// null wrapper) is null too: the union has only one null branch.
+	return pp == nil || c.Codec.Omit(pp)
 }
 
 func (c *PointerCodec) Write(w *WriteBuf, p unsafe.Pointer) {
